@@ -180,7 +180,11 @@ def gen_struct(k, layout, rnd):
             nch += 1
         else:
             pick[-1] = f"            _ => {ty}::V{len(d['vs']) - 1},"
-        src.append(f"    pub fn choose(rng: &mut Rng) -> Self {{\n        match rng.below({nch}) {{\n" + "\n".join(pick) +
+        wide = ""
+        if d["catchAll"] and w < 8:
+            # not canonical: a catch-all value with bits above the field's width (the encoder keeps them out of the image)
+            wide = (f"        if !canon && rng.below(3) == 0 {{\n            return {ty}::Other(((rng.next_u64() >> 9) as u8) | {1 << w});\n        }}\n")
+        src.append(f"    pub fn choose(rng: &mut Rng, canon: bool) -> Self {{\n{wide}        match rng.below({nch}) {{\n" + "\n".join(pick) +
                    "\n        }\n    }\n}")
     # struct
     src.append(f"#[derive(Debug, Clone, PartialEq, ethercrab_wire::EtherCrabWireReadWrite)]\n#[wire(bits = {total})]\npub struct S{k} {{")
@@ -206,7 +210,7 @@ def gen_struct(k, layout, rnd):
             gen_fields.append(f"            {name}: {{ let b = rng.bytes({n}); let mut a = [0u8; {n}]; a.copy_from_slice(&b); a }},")
             val_fields.append(f"bv(v.{name}.to_vec())")
         elif kind == "enum":
-            gen_fields.append(f"            {name}: {ty}::choose(rng),")
+            gen_fields.append(f"            {name}: {ty}::choose(rng, canon),")
             val_fields.append(f"v.{name}.tag()")
         elif kind == "nested":
             gen_fields.append(f"            {name}: gen_{ty.lower()}(rng, canon),")
